@@ -140,6 +140,11 @@ def import_violations(res: genrun.GenResult) -> tuple[list[Violation], dict]:
                     kind = "imports_generator" if top == "pyopenapi_gen" else "imports_undeclared_third_party"
                     viols.append(Violation((kind, top, c01_role(rel), where), f"{rel}:{node.lineno}: import {name}"))
                 else:
+                    pkg_depth = rel.replace(os.sep, "/").count("/")  # number of packages the module is nested in (root/<pkg>/.../<mod>.py)
+                    if level > pkg_depth:
+                        # the import climbs above the top-level package: it only resolves when the project root itself happens to be a package
+                        viols.append(Violation(("relative_import_beyond_top_level_package", c01_role(rel), where), f"{rel}:{node.lineno}: from {'.' * level}{name} import ..."))
+                        continue
                     base = os.path.dirname(path)
                     for _ in range(level - 1):
                         base = os.path.dirname(base)
@@ -214,6 +219,13 @@ def _violations(res, case, report) -> list[Violation]:
             msg = e["error"]
             if "blocked: generator-only dependency" in msg or "No module named" in msg and ("pyopenapi_gen" in msg):
                 viols.append(Violation(("needs_blocked_module_at_runtime", e["stage"], msg.split("'")[1] if "'" in msg else "?"), f"{e['module']}: {msg}\n{e.get('tb', '')[-600:]}"))
+            elif "beyond top-level package" in msg:
+                viols.append(Violation(("import_escapes_top_level_package", e["stage"]), f"{e['module']}: {msg}"[:400]))
+            elif "No module named" in msg and "'" in msg:
+                missing = msg.split("'")[1].split(".")[0]
+                own = {p.split(".")[0] for p in genrun.top_packages(res)}
+                if missing not in own:  # a module of the emitted packages that is missing is C01's business; anything else is an outside dependency
+                    viols.append(Violation(("needs_module_outside_the_emitted_packages", e["stage"], missing), f"{e['module']}: {msg}"[:400]))
     return viols
 
 
